@@ -247,6 +247,8 @@ class World:
     # ------------------------------------------------------------------ reference choices
     def refchoice(self, tx, b, allow=("null", "alias", "new", "foreign")):
         rng = self.rng
+        if getattr(self, "forced", None):           # a TLC-generated history prescribes how this reference is bound
+            return self.forced.pop(0)
         targets = [tx["to"]] if tx["k"] == "ref" else tx["of"]
         tkeys = [X.key(t) for t in targets]
         alias = [k for k, h in self.handles.items() if k[0] == b and X.key(h["tx"]) in tkeys]
@@ -446,16 +448,39 @@ class World:
             else:
                 tx, v = ntx, nv
 
-    def set(self, key, allow=("null", "alias", "new", "foreign"), want=None, np_forms=True):
+    def explicit_path(self, key, steps):
+        """(TLC path, accessor path to parent, last step, elem tx, shadow value, buffer) for the accessor steps given
+        (references on the way are followed: the library dereferences them implicitly)"""
+        tx, v, b = self.handles[key]["tx"], self.shadow[key], key[0]
+        path, acc = [], []
+        for n, s_ in enumerate(steps):
+            if tx["k"] in ("ref", "uref"):
+                if v["null"]:
+                    return None
+                path.append({"d": 1})
+                tk = (b, v["at"])
+                tx, v = self.handles[tk]["tx"], self.shadow[tk]
+            if s_[0] == "f":
+                path.append({"f": s_[1] + 1})
+                tx, v = tx["f"][s_[1]], v[s_[1]]
+            else:
+                path.append({"i": list(s_[1])})
+                j = int(np.ravel_multi_index(s_[1], v["sh"]))
+                tx, v = tx["it"], v["it"][j]
+            if n < len(steps) - 1:
+                acc.append(s_)
+        return path, acc, steps[-1], tx, v, b
+
+    def set(self, key, allow=("null", "alias", "new", "foreign"), want=None, np_forms=True, target=None, no_from=False):
         """assign a fitting value to a random element reachable from object key, through a random route"""
         rng = self.rng
-        ep = self.elem_paths(key, want)
+        ep = self.elem_paths(key, want) if target is None else self.explicit_path(key, target)
         if ep is None:
             return False
         path, acc, last, etx, cur, b = ep
         route = rng.choice([r for r in self.routes(key) if r not in ("nplike", "hybrid")])
         frm = None
-        if etx["k"] in ("struct", "arr") and rng.random() < 0.35:
+        if etx["k"] in ("struct", "arr") and not no_from and rng.random() < 0.35:
             # the value is an object of the same type and skeleton living in some buffer (possibly at the same offset elsewhere)
             sb = rng.randrange(len(self.bufs))
             val = self.gen(("null", "alias", "new") if sb != b else allow, np_forms=np_forms).value(etx, sb, like=cur)
